@@ -1,7 +1,7 @@
 """C03 -- one optimizer iteration is exactly the Gauss-Newton step (structural clauses a..e)."""
 from ..poly import Poly
-from ..interp import Arr, Obj, sym_vec, sym_mat
-from ..algebra import run_obligation, run_tasks, record, ObFail, nterms
+from ..interp import ga, sa, Arr, Obj, sym_vec, sym_mat
+from ..algebra import custom_edge, run_obligation, run_tasks, record, ObFail, nterms
 
 LEVEL = "other"
 
@@ -18,8 +18,13 @@ def generic_edge(it, dims, err_len=2, cls="BaseEdge"):
     W = sym_mat("W", err_len, err_len)
     Js = [sym_mat("J%d" % k, err_len, c) for k, c in enumerate(dims)]
     gs = [Poly.var("g%d" % k) for k in range(len(dims))]
-    verts = [Obj("Vertex", gradient_index=g, id=Poly.const(100 + k), pose=None, fixed=False) for k, g in enumerate(gs)]
-    edge = Obj(cls, information=W, estimate=None, vertex_ids=[Poly.const(100 + k) for k in range(len(dims))], vertices=verts)
+    from ..interp import sym_pose
+    verts = []
+    for k, (g, c) in enumerate(zip(gs, dims)):
+        v = it.construct("Vertex", [Poly.const(100 + k), sym_pose({2: "PoseR2", 3: "PoseR3"}.get(c, "PoseR2"), "vx%d" % k)])
+        sa(v, "gradient_index", g)
+        verts.append(v)
+    edge = custom_edge(it, [Poly.const(100 + k) for k in range(len(dims))], W, None, verts, cls=cls)
     edge.stubs["calc_error"] = lambda: err
     edge.stubs["calc_jacobians"] = lambda: list(Js)
     return edge, err, W, Js, gs
@@ -110,11 +115,11 @@ def gradient_index_obligation(vtypes):
         g = it.construct("Graph", [[], verts])
         acc = 0
         for k, (v, t) in enumerate(zip(verts, vtypes)):
-            gi = v.fields.get("gradient_index")
+            gi = ga(v, "gradient_index", None)
             if not isinstance(gi, Poly) or gi != Poly.const(acc):
                 raise ObFail("vertex %d (%s) gets gradient_index %r, expected %d" % (k, t, gi, acc))
             acc += CDIM[t]
-        lg = g.fields.get("_len_gradient")
+        lg = ga(g, "_len_gradient", None)
         if not isinstance(lg, Poly) or lg != Poly.const(acc):
             raise ObFail("_len_gradient is %r, expected %d" % (lg, acc))
         return dict(vertex_types=list(vtypes), len_gradient=acc)
